@@ -304,20 +304,32 @@ def _doc(letter):
             4: {"Type": "Page", "Parent": Ref(2), "MediaBox": [0, 0, 200, 200], "Contents": Ref(5), "Resources": {"Font": {"F1": Ref(3)}}},
             5: Stream({}, b"BT /F1 10 Tf 10 100 Td (A) Tj ET"),
             6: {"Type": "Page", "Parent": Ref(2), "MediaBox": [0, 0, 200, 200], "Contents": Ref(7), "Resources": {"Font": {"F1": Ref(3)}}},
-            7: Stream({}, b"BT /F1 10 Tf 10 100 Td (AA) Tj ET")}
+            7: Stream({}, b"BT /F1 10 Tf 10 100 Td (AA) Tj ET"),
+            # a third page WITHOUT resources whose content still names F1 and a form: whatever the library makes of it, it must not depend on the pages rendered before
+            8: {"Type": "Page", "Parent": Ref(2), "MediaBox": [0, 0, 200, 200], "Contents": Ref(9)},
+            9: Stream({}, b"BT /F1 10 Tf 10 100 Td (A) Tj ET /Fm1 Do")}
+    objs[2] = {"Type": "Pages", "Kids": [Ref(4), Ref(6), Ref(8)], "Count": 3}
     return pdfgen.build(objs)
+
+
+def _extract_alone(arg):
+    """[letter, page index] -> text of that page extracted on its own (called in a fresh interpreter through core.fresh_eval)"""
+    from pdfminer import high_level
+    return high_level.extract_text(io.BytesIO(_doc(arg[0])), page_numbers=[arg[1]])
 
 
 def h7_histories(n=3, timeout=200, part=None, **kw):
     from pdfminer import high_level
+    # what the resource-less third page gives when extracted alone from a cold start (the reference for "one at a time instead of together")
+    THIRD = {d: core.fresh_eval("C12", "_extract_alone", [d, 2]) for d in "XY"}
 
     def fn(ex):
         docs = {"X": _doc("X"), "Y": _doc("Y")}
-        expect = {"X": ["X\n\n\x0c", "XX\n\n\x0c"], "Y": ["Y\n\n\x0c", "YY\n\n\x0c"]}
+        expect = {"X": ["X\n\n\x0c", "XX\n\n\x0c", THIRD["X"]], "Y": ["Y\n\n\x0c", "YY\n\n\x0c", THIRD["Y"]]}
         hist = []
         for i in range(n):
             d = "XY"[ex.choice(2, "d%d" % i)]
-            mode = ex.choice(3, "m%d" % i)           # whole document / page 0 only / page 1 only
+            mode = ex.choice(4, "m%d" % i)           # whole document / page 0 only / page 1 only / page 2 only
             caching = ex.choice(2, "c%d" % i) == 1
             hist.append((d, mode, caching))
         interleave = ex.choice(2, "interleave") == 1
@@ -390,7 +402,8 @@ def replay(harness, inp):
     if harness == "H7_histories":
         from pdfminer import high_level
         docs = {"X": _doc("X"), "Y": _doc("Y")}
-        expect = {"X": ["X\n\n\x0c", "XX\n\n\x0c"], "Y": ["Y\n\n\x0c", "YY\n\n\x0c"]}
+        THIRD = {d: core.fresh_eval("C12", "_extract_alone", [d, 2]) for d in "XY"}
+        expect = {"X": ["X\n\n\x0c", "XX\n\n\x0c", THIRD["X"]], "Y": ["Y\n\n\x0c", "YY\n\n\x0c", THIRD["Y"]]}
         for i, (d, mode, caching) in enumerate(inp["hist"]):
             pn = None if mode == 0 else [mode - 1]
             got = high_level.extract_text(io.BytesIO(docs[d]), page_numbers=pn, caching=caching)
